@@ -241,6 +241,19 @@ def c3(rep, cov, tier):
             if spans and spans[first] is not None:
                 cases.append({"id": len(cases), "text": text, "tree": False})
                 meta.append((d, kind, text, spans, first))
+    # white space where the grammar allows none (after the '#' of a typed literal, inside 'T#5s'): the syntax error is
+    # then reported AT a white-space token
+    for d in ds:
+        text, spans = gram.spell(d["toks"])
+        k = text.find("#")
+        if k < 0:
+            continue
+        for ws in (" ", "\n", "\t", "\r\n"):
+            t2 = text[:k + 1] + ws + text[k + 1:]
+            first = max(0, sum(1 for sp in spans if sp is not None and sp[1] <= k + 1) - 1)
+            sp2 = [None if sp is None else (sp if sp[1] <= k + 1 else (sp[0] + len(ws), sp[1] + len(ws))) for sp in spans]
+            cases.append({"id": len(cases), "text": t2, "tree": False})
+            meta.append((d, "split-after-hash", t2, sp2, first))
     res = vlib.harness("parse", cases)
     lex_inputs = [{"id": i, "text": c["text"]} for i, c in enumerate(cases)]
     lex = vlib.harness("lex", lex_inputs)
@@ -256,7 +269,14 @@ def c3(rep, cov, tier):
         toks = set((x["s"], x["e"]) for x in lexcheck.impl_lexemes(lx)) if "toks" in lx else set()
         replay = {"text": text, "mutation": kind}
         labels = {"mutation:" + kind}
-        if (lab["start"], lab["end"]) not in toks:
+        # the message quotes the text the parser found: the label must cover exactly that text
+        m = re.search(r"Found text '(.*)' that matched token", lab.get("msg", ""), re.S)
+        quoted = None if not m else m.group(1).replace("\\n", "\n").replace("\\r", "\r")
+        covered = text.encode("utf-8")[lab["start"]:lab["end"]].decode("utf-8", "replace")
+        if quoted is not None and quoted != covered:
+            rep.add("syntax-error-label-does-not-cover-the-text-the-message-quotes", labels=labels,
+                    detail={"label": lab, "quoted": quoted, "covered": covered}, replay=replay)
+        elif (lab["start"], lab["end"]) not in toks:
             rep.add("syntax-error-label-is-not-one-lexeme", labels=labels, detail={"label": lab}, replay=replay)
         elif lab["end"] < spans[first][0]:
             rep.add("syntax-error-label-before-the-change", labels=labels,
